@@ -567,7 +567,7 @@ func runC04() {
 	rep := kit.NewReport("C04")
 	cfg := rep.Cfg()
 	defer rep.Flush()
-	rep.Set("rule", "case i = PRNG(seed,'C04',i): 7-15 operations through the public API of the real server binary over a pool of 12 names (case variants, namespaces, a second host) x 6 tags: create from uploaded GGUF blobs (pool of 3, digest sent as sha256:<hex> or sha256-<hex>, sometimes with upper-case hex), create from an existing model with template/system/license/parameter overrides, copy, delete (also by case variant), blob uploads under a digest that does not match the content (other letter case, another digest, too short) or repeated correct uploads, fault-free pull of published models that share blobs with the created ones, show, planted debris (an empty or truncated manifest file under a sibling tag of an existing model, as an interrupted create/copy/pull leaves it), restart (start-up prune, or OLLAMA_NOPRUNE); every history ends with a pruning restart. After every operation the store directory is read and re-hashed: every listed model shows and has all layers + config with matching size/SHA-256; manifests and blobs of models not named by the operation are byte-identical; after a pruning restart blobs == referenced digests; no two listed names equal under case folding; created => listed, deleted => not listed, copied => same manifest. Non-trivial & distinct = distinct (op-kind sequence, outcomes) among histories in which at least two models shared a blob when a delete/create/prune ran")
+	rep.Set("rule", "case i = PRNG(seed,'C04',i): 7-15 operations through the public API of the real server binary over a pool of 12 names (case variants, namespaces, a second host) x 6 tags: create from uploaded GGUF blobs (pool of 3, two of which carry a chat template the server recognises so that models made from them share generated template/parameter layers; new names are 1 in 4 another letter-case spelling of a name used earlier; digest sent as sha256:<hex> or sha256-<hex>, sometimes with upper-case hex), create from an existing model with template/system/license/parameter overrides (1 in 12 template overrides is one the server rejects), copy, delete (also by case variant), blob uploads under a digest that does not match the content (other letter case, another digest, too short) or repeated correct uploads, fault-free pull of published models that share blobs with the created ones, show, planted debris (an empty or truncated manifest file under a sibling tag of an existing model, as an interrupted create/copy/pull leaves it), restart (start-up prune, or OLLAMA_NOPRUNE); every history ends with a pruning restart. After every operation the store directory is read and re-hashed: every listed model shows and has all layers + config with matching size/SHA-256; manifests and blobs of models not named by the operation are byte-identical; after a pruning restart blobs == referenced digests; no two listed names equal under case folding; created => listed, deleted => not listed, copied => same manifest. Non-trivial & distinct = distinct (op-kind sequence, outcomes) among histories in which at least two models shared a blob when a delete/create/prune ran")
 	rep.Set("assumptions", []string{"operations are issued one at a time (concurrent store operations are C15's subject)", "create-from is only issued for sources that exist (a missing source would contact the public registry)"})
 	bin := os.Getenv("VERIF_OLLAMA_BIN")
 	work, err := os.MkdirTemp("", "verif-c04-")
